@@ -256,6 +256,7 @@ def display_of(it, ty, r):
     if ty == 'char': return [v]
     if ty in INT_RANGE or ty == 'bool': return disp_int(it, v)
     if ty == 'f64':
+        if isinstance(v, F64Text): return list(v.chars)
         if isinstance(v, float): return [ord(c) for c in fmt_f64(v)]
         raise Unsupported('Display of symbolic f64')
     key = None
@@ -266,6 +267,10 @@ def display_of(it, ty, r):
         it.exec_fn(it.fns[it.impls[key]], [r if isinstance(r, Ref) else Ref(Box_(r)), Ref(Box_(fm))])
         return fm.out
     raise Unsupported('Display for ' + ty)
+class F64Text:
+    """an f64 known only through its shortest decimal text (what `to_string` prints, trusted): printing gives the text
+    back, parsing that text gives the same number; arithmetic on it is unsupported"""
+    def __init__(self, chars): self.chars = list(chars)
 class Formatter:
     def __init__(self): self.out = []
 def fmt_f64(v):
@@ -550,6 +555,18 @@ def m_ends_with(it, s, t):
     h = deref_all(s).chars; t = deref_all(t); n = t.chars if isinstance(t, SStr) else [t]
     if len(n) > len(h): return False
     return all(B(it, h[len(h) - len(n) + i] == n[i]) for i in range(len(n)))
+@model(r'core::str::<impl str>::(strip_prefix|strip_suffix)::<(&str|char)>', True)
+def m_strip(it, callee, s, t):
+    h = deref_all(s).chars; t = deref_all(t); n = t.chars if isinstance(t, SStr) else [t]
+    if len(n) > len(h): return NONE()
+    if 'prefix' in callee:
+        if all(B(it, h[i] == n[i]) for i in range(len(n))): return SOME(Ref(Box_(SStr(h[len(n):]))))
+    elif all(B(it, h[len(h) - len(n) + i] == n[i]) for i in range(len(n))): return SOME(Ref(Box_(SStr(h[:len(h) - len(n)]))))
+    return NONE()
+@model(r'std::char::methods::<impl char>::from_digit')
+def m_from_digit(it, d, radix):
+    if radix != 10: raise Unsupported('from_digit radix')
+    return SOME(d + 48) if B(it, zand(d >= 0, d <= 9)) else NONE()
 @model(r'core::str::<impl str>::find::<(&str|char)>')
 def m_find(it, s, t):
     sv = deref_all(s); t = deref_all(t); n = t.chars if isinstance(t, SStr) else [t]
